@@ -410,6 +410,10 @@ impl Matcher {
         }
 
         // 2. Bed & Breakfast matching (30-day rule)
+        // Same-day reservations are recomputed for every disposal: shares already claimed by
+        // earlier disposals are tracked in `future_consumption`, so a stale (used-up) reservation
+        // would let this disposal take shares needed by the acquisition day's own disposal.
+        same_day_reservations.clear();
         let bnb_matched = bed_and_breakfast::match_bed_and_breakfast(
             tx,
             sell_idx,
